@@ -876,6 +876,9 @@ def partitions(tier):
         parts.append(dict(name="lite-multi:%d:%d:%s" % (lite_s, len(blocks),
                                                        "lenient" if lenient else "strict"),
                           fn="lite_read_multi",
+                          # (the Ackermann constraints of 5-6 block reads make single
+                          # queries run for a minute and more on a loaded machine)
+                          max_path_time=900,
                           params=dict(lite_s=lite_s, blocks=blocks, lenient=lenient)))
     for lite_s in (0, 1):
         parts.append(dict(name="lite-ndef-tamper:%d" % lite_s,
